@@ -1,10 +1,10 @@
-(* C16 — proofs, part 6: no unexpected exception.  For a program whose repetition counts are >= 1 and whose nodes
-   without waveform have children, the compiler model never returns ECrash (= the real code would fail with an
-   AttributeError / RuntimeError / IndexError instead of a TaborException / ValueError / AssertionError):
-   - every sequence table that reaches the parser consists of leaves carrying a waveform,
+(* C16 — proofs, part 6: no unexpected exception.  For a program whose repetition counts are >= 0 (`nn`; every `good`
+   program, every `pos` program) the compiler model never returns ECrash (= the real code would fail with a
+   RuntimeError / IndexError instead of a TaborException / ValueError / AssertionError):
+   - every sequence table that reaches prepare / the parser consists of leaves with counts >= 0 (an entry without
+     waveform is a TaborException since the repair of the parsers, ENoWaveform),
    - `split_one_child` always finds a child with count > 1 when `_check_partial_unroll` calls it,
-   - every recorded waveform index is inside `waveform_to_segment`.
-   The guard is sharp: with a count 0 the model does crash (known finding zero_count_empties_table).            *)
+   - every recorded waveform index is inside `waveform_to_segment`.                                              *)
 From Coq Require Import ZArith QArith List Bool Lia ZifyBool.
 Require Import QV.C16.Model QV.C16.Spec QV.C16.Proofs QV.C16.Proofs3 QV.C16.Proofs4 QV.C16.Proofs_term.
 Import ListNotations.
@@ -27,6 +27,30 @@ Lemma pos_intro r m w ch : 1 <= r -> (w = None -> ch <> []) -> forallb pos ch = 
 Proof.
   intros H1 H2 H3. cbn [pos]. rewrite H3. replace (1 <=? r) with true by lia.
   destruct w; [reflexivity|]. destruct ch; [now specialize (H2 eq_refl)|reflexivity].
+Qed.
+
+(* counts >= 0 *)
+Fixpoint nn (l : loop) : bool :=
+  match l with Loop r _ _ ch => (0 <=? r) && forallb nn ch end.
+
+Lemma nn_inv r m w ch : nn (Loop r m w ch) = true -> 0 <= r /\ forallb nn ch = true.
+Proof. cbn [nn]. intros H. apply andb_prop in H as [H1 H2]. split; [lia|exact H2]. Qed.
+
+Lemma nn_intro r m w ch : 0 <= r -> forallb nn ch = true -> nn (Loop r m w ch) = true.
+Proof. intros H1 H2. cbn [nn]. rewrite H2. lia. Qed.
+
+Lemma pos_nn : forall l, pos l = true -> nn l = true.
+Proof.
+  fix IH 1. intros [r m w ch] H. apply pos_inv in H as (Hr & _ & Hch). apply nn_intro; [lia|].
+  induction ch as [|c ch IHl]; [reflexivity|]. cbn [forallb] in *. apply andb_prop in Hch as [Hc Hl].
+  now rewrite (IH c Hc), (IHl Hl).
+Qed.
+
+Lemma good_nn : forall l, good l = true -> nn l = true.
+Proof.
+  fix IH 1. intros [r m w ch] H. apply good_inv in H as (Hr & _ & Hch). apply nn_intro; [lia|].
+  induction ch as [|c ch IHl]; [reflexivity|]. cbn [forallb] in *. apply andb_prop in Hch as [Hc Hl].
+  now rewrite (IH c Hc), (IHl Hl).
 Qed.
 
 Definition nc {A} (r : result A) : Prop := r <> Err ECrash.
@@ -59,54 +83,41 @@ Proof.
   destruct (depth sub =? d - 1); [eauto|]. destruct (can_merge sub); [eauto|]. destruct (negb (is_leaf sub)); eauto.
 Qed.
 
-Lemma fab_pos : forall fuel d done todo r,
-  forallb pos done = true -> forallb pos todo = true -> fab fuel d done todo = Ok r ->
-  forallb pos r = true /\ (done ++ todo <> [] -> r <> []).
+Lemma fab_nn : forall fuel d done todo r,
+  forallb nn done = true -> forallb nn todo = true -> fab fuel d done todo = Ok r -> forallb nn r = true.
 Proof.
   induction fuel as [|f IH]; intros d done todo r Gd Gt H; [discriminate|].
   cbn [fab] in H. destruct todo as [|sub rest].
-  - injection H as <-. split; [now rewrite forallb_rev'|]. rewrite app_nil_r. apply rev_nonnil.
+  - injection H as <-. now rewrite forallb_rev'.
   - cbn [forallb] in Gt. apply andb_prop in Gt as [Gs Gr].
-    assert (NE : forall x (l : list loop), done ++ x :: l <> []) by (intros; destruct done; discriminate).
-    assert (NE2 : forall x (l : list loop), (x :: done) ++ l <> []) by discriminate.
     destruct (depth sub <? d - 1).
-    { apply IH in H; [|assumption|cbn [forallb]; rewrite Gr, andb_true_r; unfold encapsulate; apply pos_intro;
-                                   [lia|discriminate|cbn; now rewrite Gs]].
-      destruct H as [H1 H2]. split; [exact H1|]. intros _. apply H2, NE. }
+    { apply IH in H; [exact H|assumption|]. cbn [forallb]. rewrite Gr, andb_true_r. unfold encapsulate.
+      apply nn_intro; [lia|cbn; now rewrite Gs]. }
     destruct (negb (balanced sub)) eqn:Eb.
     { destruct sub as [sr sm sw sch]. destruct (fab f (d - 1) [] sch) as [ch'|e] eqn:Erec; [|discriminate].
-      pose proof (pos_inv _ _ _ _ Gs) as (Hr & Hw & Hch).
-      apply IH in Erec; [|reflexivity|assumption]. destruct Erec as [Gch' Nch'].
-      assert (Hne : sch <> []) by (intros ->; cbn in Eb; discriminate).
-      assert (G' : pos (Loop sr sm sw ch') = true) by (apply pos_intro; auto).
-      apply IH in H; [|assumption|cbn [forallb]; now rewrite G', Gr].
-      destruct H as [H1 H2]. split; [exact H1|]. intros _. apply H2, NE. }
+      pose proof (nn_inv _ _ _ _ Gs) as (Hr & Hch).
+      apply IH in Erec; [|reflexivity|assumption].
+      assert (G' : nn (Loop sr sm sw ch') = true) by (apply nn_intro; auto).
+      apply IH in H; [exact H|assumption|cbn [forallb]; now rewrite G', Gr]. }
     destruct (depth sub =? d - 1).
-    { apply IH in H; [|cbn [forallb]; now rewrite Gs, Gd|assumption].
-      destruct H as [H1 H2]. split; [exact H1|]. intros _. apply H2, NE2. }
+    { apply IH in H; [exact H|cbn [forallb]; now rewrite Gs, Gd|assumption]. }
     destruct (can_merge sub) eqn:Ec.
     { destruct (can_merge_inv _ Ec) as (r0 & m & w & cr & cm & cw & cch & -> & Em). rewrite Em in H.
-      pose proof (pos_inv _ _ _ _ Gs) as (Hr & _ & Hch). cbn [forallb] in Hch. rewrite andb_true_r in Hch.
-      pose proof (pos_inv _ _ _ _ Hch) as (Hcr & Hcw & Hcch).
-      apply IH in H; [|assumption|cbn [forallb]; rewrite Gr, andb_true_r; apply pos_intro; auto; nia].
-      destruct H as [H1 H2]. split; [exact H1|]. intros _. apply H2, NE. }
+      pose proof (nn_inv _ _ _ _ Gs) as (Hr & Hch). cbn [forallb] in Hch. rewrite andb_true_r in Hch.
+      pose proof (nn_inv _ _ _ _ Hch) as (Hcr & Hcch).
+      apply IH in H; [exact H|assumption|cbn [forallb]; rewrite Gr, andb_true_r; apply nn_intro; auto; nia]. }
     destruct (negb (is_leaf sub)) eqn:El.
-    { destruct sub as [sr sm sw sch]. pose proof (pos_inv _ _ _ _ Gs) as (Hr & _ & Hch).
-      assert (Hne : sch <> []) by (intros ->; cbn in El; discriminate).
-      apply IH in H; [|assumption|unfold unroll; cbn [l_rep l_ch]; rewrite forallb_app, Gr, andb_true_r;
-                                   now apply forallb_rep_concat].
-      destruct H as [H1 H2]. split; [exact H1|]. intros _. apply H2. unfold unroll. cbn [l_rep l_ch].
-      pose proof (rep_concat_nonnil sr sch Hr Hne). destruct done, (rep_concat sr sch); cbn; congruence. }
-    apply IH in H; [|cbn [forallb]; now rewrite Gs, Gd|assumption].
-    destruct H as [H1 H2]. split; [exact H1|]. intros _. apply H2, NE2.
+    { destruct sub as [sr sm sw sch]. pose proof (nn_inv _ _ _ _ Gs) as (Hr & Hch).
+      apply IH in H; [exact H|assumption|]. unfold unroll. cbn [l_rep l_ch]. rewrite forallb_app, Gr, andb_true_r.
+      now apply forallb_rep_concat. }
+    apply IH in H; [exact H|cbn [forallb]; now rewrite Gs, Gd|assumption].
 Qed.
 
 (* ---------------------------------------------------------------------------------------------------------- *)
-(* sequence tables: count >= 1 over leaves that carry a waveform and have count >= 1 *)
+(* sequence tables: count >= 0 over leaves with count >= 0 *)
 
-Definition has_wf (c : loop) : bool := match l_wf c with Some _ => true | None => false end.
-Definition leaf_ok (c : loop) : bool := is_leaf c && (1 <=? l_rep c) && has_wf c.
-Definition tab_ok (t : loop) : bool := (1 <=? l_rep t) && forallb leaf_ok (l_ch t).
+Definition leaf_ok (c : loop) : bool := is_leaf c && (0 <=? l_rep c).
+Definition tab_ok (t : loop) : bool := (0 <=? l_rep t) && forallb leaf_ok (l_ch t).
 
 Lemma zmax_list_ge l x : In x l -> x <= zmax_list l.
 Proof.
@@ -127,24 +138,22 @@ Proof.
   pose proof (zmax_list_ge (map depth (c :: ch)) (depth e) (in_map depth _ _ He)). pose proof (depth_nonneg e). lia.
 Qed.
 
-Lemma pos_leaf_ok c : pos c = true -> is_leaf c = true -> leaf_ok c = true.
+Lemma nn_leaf_ok c : nn c = true -> is_leaf c = true -> leaf_ok c = true.
 Proof.
-  destruct c as [r m w ch]. unfold is_leaf, leaf_ok, has_wf, is_leaf. cbn [l_ch l_rep l_wf]. intros P L.
-  destruct ch; [|discriminate]. apply pos_inv in P as (Hr & Hw & _).
-  destruct w; [cbn; lia|]. now specialize (Hw eq_refl).
+  destruct c as [r m w ch]. unfold leaf_ok. intros P L. rewrite L. apply nn_inv in P as (Hr & _). cbn [l_rep]. lia.
 Qed.
 
-Lemma pos_depth1_tab t : pos t = true -> depth t = 1 -> tab_ok t = true.
+Lemma nn_depth1_tab t : nn t = true -> depth t = 1 -> tab_ok t = true.
 Proof.
   intros P D. pose proof (depth1_leaves _ D) as L. destruct t as [r m w ch]. cbn [l_ch] in L.
-  apply pos_inv in P as (Hr & _ & Hch). unfold tab_ok. cbn [l_rep l_ch]. replace (1 <=? r) with true by lia.
-  apply forallb_forall. intros c Hc. apply pos_leaf_ok; [eapply forallb_forall in Hch|eapply forallb_forall in L]; eauto.
+  apply nn_inv in P as (Hr & Hch). unfold tab_ok. cbn [l_rep l_ch]. replace (0 <=? r) with true by lia.
+  apply forallb_forall. intros c Hc. apply nn_leaf_ok; [eapply forallb_forall in Hch|eapply forallb_forall in L]; eauto.
 Qed.
 
-Lemma tab_ok_inv t : tab_ok t = true -> 1 <= l_rep t /\ forallb leaf_ok (l_ch t) = true.
+Lemma tab_ok_inv t : tab_ok t = true -> 0 <= l_rep t /\ forallb leaf_ok (l_ch t) = true.
 Proof. unfold tab_ok. intros H. apply andb_prop in H as [H1 H2]. split; [lia|exact H2]. Qed.
 
-Lemma tab_ok_intro t : 1 <= l_rep t -> forallb leaf_ok (l_ch t) = true -> tab_ok t = true.
+Lemma tab_ok_intro t : 0 <= l_rep t -> forallb leaf_ok (l_ch t) = true -> tab_ok t = true.
 Proof. intros H1 H2. unfold tab_ok. rewrite H2. lia. Qed.
 
 Lemma tab_ok_append a b : tab_ok a = true -> tab_ok b = true -> tab_ok (append_children a b) = true.
@@ -168,24 +177,18 @@ Proof.
   now rewrite l_ch_set_rep.
 Qed.
 
-Lemma leaf_ok_set_rep c r : leaf_ok c = true -> 1 <= r -> leaf_ok (set_rep c r) = true.
+Lemma leaf_ok_set_rep c r : leaf_ok c = true -> 0 <= r -> leaf_ok (set_rep c r) = true.
 Proof.
-  destruct c as [r0 m w ch]. unfold leaf_ok, is_leaf, has_wf. cbn [set_rep l_ch l_rep l_wf]. intros H Hr.
-  apply andb_prop in H as [H H3]. apply andb_prop in H as [H1 _]. rewrite H1, H3. lia.
+  destruct c as [r0 m w ch]. unfold leaf_ok, is_leaf. cbn [set_rep l_ch l_rep]. intros H Hr.
+  apply andb_prop in H as [H1 _]. rewrite H1. lia.
 Qed.
 
 (* split_one_child: finds a child whenever the counts add up to more than the number of children *)
 Lemma sum_reps_cons c l : sum_reps (c :: l) = l_rep c + sum_reps l.
 Proof. reflexivity. Qed.
 
-Lemma leaf_ok_rep c : leaf_ok c = true -> 1 <= l_rep c.
-Proof. unfold leaf_ok. intros H. apply andb_prop in H as [H _]. apply andb_prop in H as [_ H]. lia. Qed.
-
-Lemma sum_reps_ge_len l : forallb leaf_ok l = true -> Z.of_nat (length l) <= sum_reps l.
-Proof.
-  induction l as [|c l IH]; intros H; [cbn; lia|]. cbn [forallb] in H. apply andb_prop in H as [Hc Hl].
-  rewrite sum_reps_cons. pose proof (leaf_ok_rep _ Hc). specialize (IH Hl). cbn [length]. lia.
-Qed.
+Lemma leaf_ok_rep c : leaf_ok c = true -> 0 <= l_rep c.
+Proof. unfold leaf_ok. intros H. apply andb_prop in H as [_ H]. lia. Qed.
 
 Lemma split_last_p_true_some : forall l, forallb leaf_ok l = true -> Z.of_nat (length l) < sum_reps l ->
   split_last_p (fun _ => true) l <> None.
@@ -352,8 +355,7 @@ Lemma parse_table_nc tbl : forall ch known, forallb leaf_ok ch = true ->
 Proof.
   induction ch as [|c r IH]; intros known H; cbn [parse_table]; [split; [lia|constructor]|].
   cbn [forallb] in H. apply andb_prop in H as [Hc Hr].
-  assert (Hw : has_wf c = true) by (unfold leaf_ok in Hc; now apply andb_prop in Hc as [_ ?]).
-  unfold has_wf in Hw. destruct (l_wf c) as [w|]; [|discriminate].
+  destruct (l_wf c) as [w|]; [|discriminate].
   destruct (cls_of tbl w) as [k|]; [|discriminate].
   destruct (setdefault wf_key_eqb (k, w) known) as [idx known1] eqn:Es.
   destruct (setdefault_spec _ _ _ _ _ wf_key_eqb_refl Es) as ((e1 & ->) & x & Hx & _).
@@ -422,18 +424,18 @@ Qed.
 Lemma fab_fabl_ok n d todo r : fab n d [] todo = Ok r -> fabl n d todo = Ok r.
 Proof. rewrite fab_fabl. destruct (fabl n d todo); cbn; congruence. Qed.
 
-Theorem compile_no_crash ff pf c tbl prog : pos prog = true -> compile_with ff pf c tbl prog <> Err ECrash.
+Theorem compile_no_crash_nn ff pf c tbl prog : nn prog = true -> compile_with ff pf c tbl prog <> Err ECrash.
 Proof.
   intros P. unfold compile_with. fold (root_of prog). set (prog1 := root_of prog).
-  assert (P1 : pos prog1 = true).
-  { unfold prog1, root_of. destruct (_ || _); [|exact P]. apply pos_intro; [lia|discriminate|cbn; now rewrite P]. }
+  assert (P1 : nn prog1 = true).
+  { unfold prog1, root_of. destruct (_ || _); [|exact P]. apply nn_intro; [lia|cbn; now rewrite P]. }
   destruct (negb (c_nchan c =? c_cpp c)); [discriminate|].
   destruct (negb (c_nmark c =? c_cpp c)); [discriminate|].
   destruct (negb (c_nchan c =? 2)); [discriminate|].
   destruct (negb (match c_mode c with Some m => m | None => depth prog1 >? 1 end)).
   - destruct (negb (depth prog1 =? 1)) eqn:Ed; [discriminate|]. destruct (negb (balanced prog1)); [discriminate|].
     destruct (l_len prog1 >? c_max c); [discriminate|].
-    assert (T : tab_ok prog1 = true) by (apply pos_depth1_tab; [exact P1|lia]).
+    assert (T : tab_ok prog1 = true) by (apply nn_depth1_tab; [exact P1|lia]).
     apply tab_ok_inv in T as [_ T]. pose proof (parse_table_nc tbl (l_ch prog1) [] T) as HP.
     unfold parse_single. apply bind_nc.
     + apply bind_nc; [|intros [es known] _; discriminate].
@@ -445,12 +447,12 @@ Proof.
   - destruct (negb (depth prog1 >? 1)); [discriminate|]. destruct (negb (l_rep prog1 =? 1)); [discriminate|].
     apply bind_nc; [intros E; apply fab_err in E; discriminate|]. intros ch1 Ef.
     assert (T1 : forallb tab_ok ch1 = true).
-    { destruct prog1 as [r m w ch] eqn:E1. apply pos_inv in P1 as (_ & _ & Pch). cbn [l_ch] in Ef.
-      destruct (fab_pos ff 2 [] ch ch1 eq_refl Pch Ef) as [Pc1 _].
+    { destruct prog1 as [r m w ch] eqn:E1. apply nn_inv in P1 as (_ & Pch). cbn [l_ch] in Ef.
+      pose proof (fab_nn ff 2 [] ch ch1 eq_refl Pch Ef) as Pc1.
       pose proof (fabl_post _ _ _ _ (fab_fabl_ok _ _ _ _ Ef)) as Hpost.
       apply forallb_forall. intros t Ht. rewrite Forall_forall in Hpost.
       destruct (Hpost t Ht) as [[_ Hd]|[_ Hd]]; [|lia].
-      apply pos_depth1_tab; [eapply forallb_forall in Pc1; eauto|lia]. }
+      apply nn_depth1_tab; [eapply forallb_forall in Pc1; eauto|lia]. }
     pose proof (prep_tab pf (c_min c) (c_max c) [] ch1 eq_refl T1) as HP.
     apply bind_nc; [destruct (prep pf (c_min c) (c_max c) [] ch1); [discriminate|]; intros E; injection E as ->; now apply HP|].
     intros ch2 Ep. rewrite Ep in HP. destruct (negb (forallb _ ch2)); [discriminate|].
@@ -460,12 +462,20 @@ Proof.
     intros p Epp. rewrite Epp in HA. now apply calc_segments_nc.
 Qed.
 
-(* the guard is sharp: with a repetition count 0 the model crashes (parser reaches a leaf without waveform) *)
+Theorem compile_no_crash ff pf c tbl prog : pos prog = true -> compile_with ff pf c tbl prog <> Err ECrash.
+Proof. intros P. apply compile_no_crash_nn. now apply pos_nn. Qed.
+
+Theorem compile_no_crash_good ff pf c tbl prog : good prog = true -> compile_with ff pf c tbl prog <> Err ECrash.
+Proof. intros P. apply compile_no_crash_nn. now apply good_nn. Qed.
+
+(* the former witness of the crash (known finding zero_count_empties_table, repaired): a good program in which a
+   repetition count 0 leaves a node without children is now REJECTED with the parser's TaborException *)
 Definition ex_zero : loop :=
   Loop 1 plain None
     [Loop 1 plain None [Loop 0 plain None [ex_leaf 0 1; ex_leaf 0 1];
                         Loop 0 plain None [Loop 1 plain None [ex_leaf 0 1; ex_leaf 0 1];
                                            Loop 1 plain None [ex_leaf 0 1; ex_leaf 0 1]]]].
 
-Lemma zero_count_crashes : good ex_zero = true /\ compile (ex_cfg 1 4) ex_tbl ex_zero = Err ECrash.
-Proof. split; [reflexivity|]. vm_compute. reflexivity. Qed.
+Lemma zero_count_rejected : good ex_zero = true /\ pos ex_zero = false /\
+  compile (ex_cfg 1 4) ex_tbl ex_zero = Err ENoWaveform.
+Proof. split; [reflexivity|]. split; [reflexivity|]. vm_compute. reflexivity. Qed.
